@@ -28,7 +28,7 @@ CASES = {"quick": 64, "thorough": 1600}
 BUDGET_S = {"quick": 40, "thorough": 600}
 MIN_EVALS = {"quick": 40, "thorough": 1200}
 FLOORS = {"stream_commit_checked": 200, "import_commit_checked": 150, "roundtrip": 40, "rev_parents": 200, "rev_tree": 200, "rev_meta": 200, "merge_revs": 20, "tags_compared": 15,
-          "delta_renamed": 40, "delta_removed": 40, "delta_swap": 5, "symlink_entries": 40, "exec_entries": 40, "plain": 15, "rich": 15}
+          "delta_renamed": 40, "delta_removed": 40, "delta_swap": 5, "shape_rm_mv_onto_modify": 8, "shape_dir_rename_onto_prefix_name": 8, "symlink_entries": 40, "exec_entries": 40, "plain": 15, "rich": 15}
 SHARDS = {"quick": 6}  # every worker pays the same start-up (imports are compiled per process); fewer, longer shards
 EXHAUSTIVE = {"quick": False, "thorough": False}
 ASSUMPTIONS = [
@@ -147,6 +147,85 @@ def _swap(rng, wt, log):
         wt.revert()
 
 
+def _committed_unchanged(wt):
+    """Paths whose entry is exactly as in the basis tree (same id, path, kind, content, exec): safe material for a shaped change."""
+    st = observe.snap_tree(wt)
+    with wt.lock_read():
+        basis = observe.snap_tree(wt.basis_tree())
+    return st, {p for p, v in st.items() if basis.get(p) == v}
+
+
+def _replace_by_rename(rng, wt, log):
+    """rm a; mv b a; then edit and/or chmod the new a - one commit that deletes a path, re-occupies it by a rename and modifies it."""
+    st, same = _committed_unchanged(wt)
+    files = sorted(p for p in same if st[p][0] == "file")
+    if len(files) < 2:
+        return
+    a, b = rng.sample(files, 2)
+    try:
+        wt.remove([a], keep_files=False, force=True)
+        wt.rename_one(b, a)
+        ap = os.path.join(wt.basedir, a)
+        how = rng.choice(["edit", "chmod", "both"])
+        if how in ("edit", "both"):
+            mode = os.stat(ap).st_mode & 0o7777
+            with open(ap, "wb") as f:
+                f.write(gen.edit_content(rng, st[b][1] or b""))
+            os.chmod(ap, mode)
+        if how in ("chmod", "both"):
+            os.chmod(ap, 0o644 if st[b][2] else 0o755)
+        log.append({"op": "rm+mv-onto+" + how, "removed": a, "renamed_onto_it": b})
+    except Exception as e:
+        log.append({"refused": "replace_by_rename", "err": type(e).__name__})
+        wt.revert()
+
+
+def _dir_rename_onto_prefix_name(rng, wt, log):
+    """mv X P/N where N is a proper string prefix of the name of a sibling S in P, and S (or a file below it) is deleted or edited in
+    the same commit (d1 next to d10, READ next to README)."""
+    st, same = _committed_unchanged(wt)
+    dirs = sorted(p for p in same if st[p][0] == "directory" and any(q.startswith(p + "/") and st[q][0] != "directory" for q in st))
+    cands = []
+    for s_ in sorted(same):
+        parent, _, sname = s_.rpartition("/")
+        if len(sname) < 2:
+            continue
+        for k in sorted({len(sname) - 1, 2, 1}):
+            if not 0 < k < len(sname):
+                continue
+            n = (parent + "/" if parent else "") + sname[:k]
+            if n in st or os.path.lexists(os.path.join(wt.basedir, n)):
+                continue
+            for x in dirs:
+                if x != s_ and not s_.startswith(x + "/") and not n.startswith(x + "/") and not x.startswith(s_ + "/"):
+                    cands.append((x, n, s_))
+    if not cands:
+        return
+    x, n, s_ = rng.choice(cands)
+    victim = s_
+    if st[s_][0] == "directory":
+        below = sorted(q for q in same if q.startswith(s_ + "/") and st[q][0] == "file")
+        if not below:
+            return
+        victim = rng.choice(below)
+    try:
+        wt.rename_one(x, n)
+        if st[victim][0] == "file" and rng.random() < 0.5:
+            ap = os.path.join(wt.basedir, victim)
+            mode = os.stat(ap).st_mode & 0o7777
+            with open(ap, "wb") as f:
+                f.write(gen.edit_content(rng, st[victim][1] or b""))
+            os.chmod(ap, mode)
+            what = "edit"
+        else:
+            wt.remove([victim], keep_files=False, force=True)
+            what = "remove"
+        log.append({"op": "dir-rename-onto-prefix-name", "dir": x, "new": n, "sibling": s_, what: victim})
+    except Exception as e:
+        log.append({"refused": "dir_rename_prefix", "err": type(e).__name__})
+        wt.revert()
+
+
 def _commit(h, name, wt, rng):
     from breezy import errors
 
@@ -213,8 +292,13 @@ def _build(ctx, rng, nrevs, nbranches):
             _commit(h, name, wt, rng)
             continue
         gen.random_delta(rng, wt, names, rng.randint(1, 5), WEIGHTS, h.log)
-        if rng.random() < 0.15:
+        shaped = rng.random()
+        if shaped < 0.15:
             _swap(rng, wt, h.log)
+        elif shaped < 0.30:
+            _replace_by_rename(rng, wt, h.log)
+        elif shaped < 0.45:
+            _dir_rename_onto_prefix_name(rng, wt, h.log)
         if rng.random() < 0.3:
             try:
                 wt.smart_add([wt.basedir])
@@ -558,7 +642,12 @@ def _export_family(plain, d, cls, sym, p, roles):
     return "%s:%s" % (cls, sym)
 
 
-def _import_family(role, sym, roles):
+def _prefix_sibling(path, roles):
+    """path is not inside a rename destination but its name merely begins with it (lib -> library.txt, d1 -> d10/x)."""
+    return any("R-dst" in v and path != q and path.startswith(q) and not path.startswith(q + "/") for q, v in roles.items())
+
+
+def _import_family(role, sym, roles, path=None):
     """Mechanism by the role the commit's commands give the failing path and its ancestors."""
     parts = set(role.split("+"))
     if "R-dst" in parts and sym == "missing":
@@ -572,6 +661,8 @@ def _import_family(role, sym, roles):
         return "path-below-directory-renamed-in-same-commit"
     if any(x.startswith("parent-of-") for x in parts):
         return "directory-whose-content-is-renamed-in-same-commit"
+    if path is not None and any(_prefix_sibling(q, roles) for q in [path] + [path[:i] for i, ch in enumerate(path) if ch == "/"]):
+        return "sibling-sharing-name-prefix-with-rename-destination"
     return "%s:%s" % (role, sym)
 
 
@@ -586,6 +677,8 @@ def _import_crash_family(roles, typename, where, is_merge=False):
         return "raised:rename-source-path-reused-in-same-commit"
     if any(x != q and (x.startswith(q + "/")) for q in srcs + dsts for x in roles):
         return "raised:path-below-directory-renamed-in-same-commit"
+    if any(_prefix_sibling(q, roles) for q in roles):
+        return "raised:sibling-sharing-name-prefix-with-rename-destination"
     if srcs and is_merge:
         return "raised:merge-commit-with-renames:%s" % typename
     if srcs:
@@ -680,12 +773,16 @@ def _roundtrip(ctx, rng, h, bname, plain, rewrite_tags):
             d = Delta(pa, src_snap(r))
             want = sm.prune_empty_dirs(observe.strip_ids(src_snap(r)))
             diffs = _diff_maps(want, sm.prune_empty_dirs(model))
-            fatal = sorted({n[0] for n in notes if n[0] in ("rename-of-missing-path", "copy-of-missing-path", "unknown-file-command")})
+            fatal = sorted({n[0] for n in notes if n[0] in ("delete-of-path-reoccupied-in-same-commit", "rename-of-missing-path",
+                                                           "copy-of-missing-path", "unknown-file-command")})
             if diffs:
                 sym, p = diffs[0]
                 cls = _cls_of(d, p)
                 fam = None
-                for sym2, p2 in diffs:
+                reocc = {n[1] for n in notes if n[0] == "delete-of-path-reoccupied-in-same-commit"}
+                if any(p2 in reocc or any(p2.startswith(x + "/") for x in reocc) for _s, p2 in diffs):
+                    fam = "path-deleted-after-being-reoccupied"
+                for sym2, p2 in ([] if fam else diffs):
                     # a directory that vanished or appeared: what explains it lies below it
                     below = sorted(q for q in set(d.old_at) | set(d.new_at) if q.startswith(p2 + "/"))
                     for q in [p2] + below:
@@ -702,7 +799,9 @@ def _roundtrip(ctx, rng, h, bname, plain, rewrite_tags):
                                     "stream_diffs": diffs[:8]})
             elif fatal:
                 missing = [n[1] for n in notes if n[0] == fatal[0]]
-                if fatal[0] == "rename-of-missing-path" and missing[0] in base:
+                if fatal[0] == "delete-of-path-reoccupied-in-same-commit":
+                    key = "path-deleted-after-being-reoccupied"
+                elif fatal[0] == "rename-of-missing-path" and missing[0] in base:
                     # the source existed in the parent tree: an earlier command of the same commit destroyed or moved it
                     key = _export_family(plain, d, _cls_of(d, missing[0]), "rename-source-gone", missing[0], roles_by_mark[mark])
                 else:
@@ -825,7 +924,7 @@ def _roundtrip(ctx, rng, h, bname, plain, rewrite_tags):
             if diffs:
                 sym, p = diffs[0]
                 role = _role_of(roles_by_mark.get(mark, {}), p)
-                i_problem[mark] = ("import:tree:%s" % _import_family(role, sym, roles_by_mark.get(mark, {})),
+                i_problem[mark] = ("import:tree:%s" % _import_family(role, sym, roles_by_mark.get(mark, {}), p),
                                    "commit %s: imported tree has path(s) %r %s w.r.t. what the commit's file commands describe (role of the "
                                    "path in the commands: %s)" % (mark.decode(), [x[1] for x in diffs[:4]], sym, role),
                                    {"mark": mark.decode(), "commands": cmds_by_mark.get(mark), "import_diffs": diffs[:8]})
@@ -964,6 +1063,14 @@ def case(ctx):
     if len(h.order) < 3:
         ctx.discard("short-history")
     ctx.info = {"log": h.log[-150:]}
+    for e in h.log:
+        op = e.get("op", "") if isinstance(e, dict) else ""
+        if op.startswith("rm+mv-onto+"):
+            ctx.count("shape_rm_mv_onto_modify")
+        elif op == "dir-rename-onto-prefix-name":
+            ctx.count("shape_dir_rename_onto_prefix_name")
+        elif op == "swap":
+            ctx.count("shape_swap")
     for bname in sorted(h.trees):
         plain = rng.random() < 0.5
         _roundtrip(ctx, rng, h, bname, plain, rewrite_tags=plain and rng.random() < 0.5)
